@@ -1681,7 +1681,24 @@ def vhost_cases(ctx):
                       'domains': DOMAINS})
     cases.append({'kind': 'vhost', 'gateways': None, 'omit_kw': False, 'ip': GW_C, 'host': None, 'xfh': 'two.example',
                   'path': '/', 'domains': DOMAINS})
-    pool = [GW_A, GW_B, GW_C, '10.1.1.1', '::1', '']
+    # remote addresses that are *textually close* to a configured gateway but denote another host (a digit more or less, the
+    # dotted quad embedded in an IPv6 address that is not the IPv4-mapped form, a port glued on, a different IPv6 host with the same
+    # tail): trust must not be granted on a partial match.  (Forms denoting the *same* host - `::ffff:a.b.c.d`, other spellings of
+    # one IPv6 address - are left out on purpose: honouring them would not contradict the statement.)
+    def near_misses(g):
+        if ':' in g:
+            return [g + '1', '1' + g, g + ':1', 'fe80' + g, g.replace('::', '::1:', 1), g + '%eth0x']
+        return [g + '1', '1' + g, g[:-1] or '0', '2001:db8::' + g, '64:ff9b::' + g, '::' + g, 'fe80::1:' + g, g + ':80',
+                g + '.', ' ' + g, g.replace('.', ':', 1)]
+    GW6 = '2001:db8::7'
+    for cfg in (['list', [GW_A]], ['tuple', [GW_A, GW_B]], ['set', [GW6]], ['list', [GW6, GW_A]]):
+        for g in cfg[1]:
+            for ip in near_misses(g):
+                for xfh in ('two.example', ' Two.Example , other.example'):
+                    cases.append({'kind': 'vhost', 'gateways': cfg, 'ip': ip, 'host': rng.choice(hosts), 'xfh': xfh,
+                                  'path': rng.choice(['/', '/x/y']), 'domains': DOMAINS})
+            cases.append({'kind': 'vhost', 'gateways': cfg, 'ip': g, 'host': None, 'xfh': 'two.example', 'path': '/', 'domains': DOMAINS})
+    pool = [GW_A, GW_B, GW_C, '10.1.1.1', '::1', '', GW6] + near_misses(GW_A)[:6] + near_misses(GW6)[:3]
     for _ in range(400 * ctx.scale):
         k = rng.randint(0, 3)
         cfg = None if rng.random() < 0.2 else [rng.choice(['list', 'tuple', 'set']), sorted(set(rng.sample(pool, k)))]
